@@ -11,6 +11,10 @@ from pedal.types.new_types import (AnyType, ImpossibleType,
 
 def add_tuples(left, right):
     """ Literally just concatenate the types """
+    if left.is_empty or right.is_empty:
+        # No element types also stands for an unknown number of elements (a
+        # repeated tuple): so does whatever it is concatenated with
+        return TupleType([])
     return TupleType(tuple(left.element_types) + tuple(right.element_types))
 
 
